@@ -22,6 +22,7 @@ TraceNext == /\ l <= Len(Traces[tid].evs)
              /\ UNCHANGED tid
              /\ \/ Ev.op = "alloc" /\ Alloc(Ev.n) /\ last'.ret = Ev.ret
                 \/ Ev.op = "free" /\ Ev.ret = 0 /\ FreeOff(Ev.n)
+                \/ Ev.op = "reset" /\ Ev.ret = 0 /\ Reset
              /\ Ev.chk => tbl' = Ev.tbl
 TraceSpec == TraceInit /\ [][TraceNext]_tvars
 
